@@ -11,7 +11,7 @@
    believer is the creator of the key, so its refresh / delete act on its own key).
    This file contains only the property theorems. *)
 From Coq Require Import List ZArith.
-From Verif Require Import Base.KV Locks.Interleave Locks.Ephemeral Locks.EphemeralProofs.
+From Verif Require Import Base.KV Locks.Interleave Locks.Ephemeral Locks.EphemeralProofs Locks.EphemeralOkProofs.
 
 Theorem C26_etcd_exclusive : forall s i j a b,
   reachable estep esys_init s ->
@@ -103,3 +103,14 @@ Theorem C26_ok_accepts_etcd_loops_bounded :
   forallb (fun ops => orb (negb (er_legal WService e_obs2 (e_start, None) ops)) (ok_on_model BEtcdS (1%Z :: 1%Z :: nil) ops)) (schedules 5) = true.
 Proof. exact ok_sound_on_etcd_loops_bounded. Qed.
 Print Assumptions C26_ok_accepts_etcd_loops_bounded.
+
+(* unbounded: for schedules of any length over any number of registrants that the
+   harness can produce (a registrant is (re)started only when it is not
+   registered), the boolean reflection [Ephemeral.ok] is true on what the etcd
+   model produces (plain StartEphemeral mode; for the client loops see the bounded
+   sweeps above) *)
+Theorem C26_ok_accepts_etcd_model : forall ttls ops,
+  e_legal (run_skip estep esys_init (map GNew ttls)) ops = true ->
+  ok (mkCase BEtcd ttls ops (model_obs (mkCase BEtcd ttls ops nil))) = true.
+Proof. exact ok_accepts_etcd_model. Qed.
+Print Assumptions C26_ok_accepts_etcd_model.
